@@ -739,7 +739,41 @@ def r52(orig, rule):
     return ' '.join(head) + ' let mut this = self ; ' + ' '.join(out) + ' }'
 
 
+def r53(orig, rule):
+    # fn header with wildcard parameters:  `_: T`  ->  `__p1: T`, `__p2: T`, ..   (an unused parameter gets a name; Verus rejects `_`)
+    toks = texts(lex(orig)[0])
+    if 'fn' not in toks[:6]:
+        raise NoMatch('not a fn header')
+    out, n = [], 0
+    for i, t in enumerate(toks):
+        if t == '_' and i + 1 < len(toks) and toks[i + 1] == ':' and toks[i - 1] in ('(', ','):
+            n += 1
+            out.append('__p%d' % n)
+        else:
+            out.append(t)
+    if n == 0:
+        raise NoMatch('no wildcard parameter')
+    return ' '.join(out)
+
+
+def r54(orig, rule):
+    # E.min_by_key(|&(_, X)| X).unwrap()  (tail expression)
+    #   ->  { let mut __it = E; let mut __best = __it.next().unwrap();
+    #         loop { match __it.next() { Some(__c) => { if __c.1 < __best.1 { __best = __c; } } None => { break; } } } __best }
+    #   (Iterator::min_by_key folds with `if key(candidate) < key(best) { candidate } else { best }` starting from the first item, i.e. it
+    #    keeps the FIRST minimal element, and returns None - here: panics in unwrap - exactly when the iterator is empty)
+    s = norm(orig)
+    m = _m(r'(.+?) \. min_by_key \( \| & \( _ , (%s) \) \| (%s) \) \. unwrap \( \)' % (ID, ID), s)
+    e, x1, x2 = m.groups()
+    if x1 != x2:
+        raise NoMatch('key is not the second component')
+    return ('{ let mut __it = %s; let mut __best = __it.next().unwrap(); loop { match __it.next() { Some(__c) => { if __c.1 < __best.1 '
+            '{ __best = __c; } } None => { break; } } } __best }' % e)
+
+
 GENERATORS = {
+    'R54': r54,
+    'R53': r53,
     'R52': r52,
     'R50': r50, 'R51': r51,
     'R49': r49,
